@@ -283,10 +283,55 @@ Notation entry := (entry K).
 Notation box := (box K).
 Notation ecmp := (ecmp K kcmp).
 
+Lemma kcmp_zero_sym a b : kcmp a b = 0 -> kcmp b a = 0.
+Proof.
+  intro E. destruct (Z.lt_trichotomy (kcmp b a) 0) as [L | [L | L]]; [|exact L|].
+  - apply kcmp_anti in L. lia.
+  - assert (L' : kcmp a b < 0) by (apply kcmp_anti; exact L). lia.
+Qed.
+
+Lemma ecmp_cases (a b : entry) :
+  (kcmp (fst a) (fst b) < 0 /\ ecmp a b = -1) \/
+  (kcmp (fst a) (fst b) = 0 /\ ecmp a b = b2z (snd (snd a)) - b2z (snd (snd b))) \/
+  (0 < kcmp (fst a) (fst b) /\ ecmp a b = 1).
+Proof.
+  unfold Broadphase.ecmp. destruct (Z.ltb_spec (kcmp (fst a) (fst b)) 0); [left; auto|].
+  destruct (Z.eqb_spec (kcmp (fst a) (fst b)) 0); [right; left; auto | right; right; split; [lia | reflexivity]].
+Qed.
+
+Lemma ecmp_le_kle (a b : entry) : ecmp a b <= 0 -> kle (fst a) (fst b).
+Proof. destruct (ecmp_cases a b) as [[H E] | [[H E] | [H E]]]; lia. Qed.
+
 Lemma ecmp_total : forall a b : entry, 0 < ecmp a b -> ecmp b a <= 0.
-Proof. intros a b H. unfold Broadphase.ecmp in *. apply kcmp_anti in H. lia. Qed.
+Proof.
+  intros a b H.
+  destruct (ecmp_cases a b) as [[H1 E1] | [[H1 E1] | [H1 E1]]]; destruct (ecmp_cases b a) as [[H2 E2] | [[H2 E2] | [H2 E2]]];
+    try lia.
+  - apply kcmp_zero_sym in H1. lia.
+  - apply kcmp_zero_sym in H2. lia.
+  - apply kcmp_anti in H2. lia.
+Qed.
+
 Lemma ecmp_trans : forall a b c : entry, ecmp a b <= 0 -> ecmp b c <= 0 -> ecmp a c <= 0.
-Proof. intros a b c. unfold Broadphase.ecmp. apply kcmp_trans. Qed.
+Proof.
+  intros a b c H1 H2.
+  pose proof (kcmp_trans _ _ _ (ecmp_le_kle _ _ H1) (ecmp_le_kle _ _ H2)) as Hac.
+  destruct (ecmp_cases a c) as [[H3 E3] | [[H3 E3] | [H3 E3]]]; [lia | | lia].
+  (* a and c have equal values: b is squeezed between them *)
+  assert (Hca : kle (fst c) (fst a)) by (apply kcmp_zero_sym in H3; lia).
+  assert (Hba : kle (fst b) (fst a)) by (exact (kcmp_trans _ _ _ (ecmp_le_kle _ _ H2) Hca)).
+  assert (Hcb : kle (fst c) (fst b)) by (exact (kcmp_trans _ _ _ Hca (ecmp_le_kle _ _ H1))).
+  assert (Eab : kcmp (fst a) (fst b) = 0).
+  { destruct (Z.lt_trichotomy (kcmp (fst a) (fst b)) 0) as [L | [L | L]]; [|exact L|].
+    - apply kcmp_anti in L. lia.
+    - pose proof (ecmp_le_kle _ _ H1). lia. }
+  assert (Ebc : kcmp (fst b) (fst c) = 0).
+  { destruct (Z.lt_trichotomy (kcmp (fst b) (fst c)) 0) as [L | [L | L]]; [|exact L|].
+    - apply kcmp_anti in L. lia.
+    - pose proof (ecmp_le_kle _ _ H2). lia. }
+  destruct (ecmp_cases a b) as [[H4 E4] | [[H4 E4] | [H4 E4]]]; try lia.
+  destruct (ecmp_cases b c) as [[H5 E5] | [[H5 E5] | [H5 E5]]]; try lia.
+Qed.
 
 Lemma kle_lt_false a b : kle a b -> klt b a -> False.
 Proof. intros H1 H2. apply kcmp_anti in H2. lia. Qed.
@@ -602,19 +647,23 @@ Proof.
     + exists (emin i b). split; [reflexivity | apply S_in, E0_emin, H].
 Qed.
 
-(* order in T implies order of the values *)
-Lemma T_precedes_le t1 t2 v1 v2 :
-  In (v1, t1) E0 -> In (v2, t2) E0 -> precedes T t1 t2 -> kle v1 v2.
+(* order in T implies order of the entries under SAPcmp, hence of the values *)
+Lemma T_precedes_ecmp t1 t2 v1 v2 :
+  In (v1, t1) E0 -> In (v2, t2) E0 -> precedes T t1 t2 -> ecmp (v1, t1) (v2, t2) <= 0.
 Proof.
   intros H1 H2 HP. rewrite T_def in HP. apply precedes_map_inv in HP.
   destruct HP as ([x1 u1] & [x2 u2] & E1 & E2 & HP). simpl in E1, E2. subst u1 u2.
   destruct (precedes_in _ _ _ HP) as (I1 & I2). apply S_in in I1. apply S_in in I2.
-  pose proof (precedes_sorted _ _ _ _ S_sorted HP) as Hle. unfold Broadphase.ecmp in Hle. simpl in Hle.
+  pose proof (precedes_sorted _ _ _ _ S_sorted HP) as Hle.
   destruct t1 as [i1 m1], t2 as [i2 m2].
   destruct (E0_tag _ _ _ H1) as (b1 & N1 & V1). destruct (E0_tag _ _ _ I1) as (b1' & N1' & V1').
   destruct (E0_tag _ _ _ H2) as (b2 & N2 & V2). destruct (E0_tag _ _ _ I2) as (b2' & N2' & V2').
   assert (b1' = b1) by congruence. assert (b2' = b2) by congruence. subst. exact Hle.
 Qed.
+
+Lemma T_precedes_le t1 t2 v1 v2 :
+  In (v1, t1) E0 -> In (v2, t2) E0 -> precedes T t1 t2 -> kle v1 v2.
+Proof. intros H1 H2 HP. exact (ecmp_le_kle _ _ (T_precedes_ecmp _ _ _ _ H1 H2 HP)). Qed.
 
 Lemma klt_irrefl v : klt v v -> False.
 Proof. intro H. pose proof H as H'. apply kcmp_anti in H'. lia. Qed.
@@ -628,7 +677,7 @@ Proof.
   { intro E. injection E as E1 E2. subst. exact (klt_irrefl _ Hlt). }
   destruct (precedes_total S (v1, t1) (v2, t2)) as [HP | HP]; try (apply S_in; assumption); try assumption.
   - rewrite T_def. apply (precedes_map snd) in HP. exact HP.
-  - exfalso. pose proof (precedes_sorted _ _ _ _ S_sorted HP) as Hle. unfold Broadphase.ecmp in Hle. simpl in Hle.
+  - exfalso. pose proof (precedes_sorted _ _ _ _ S_sorted HP) as Hle. apply ecmp_le_kle in Hle. simpl in Hle.
     exact (kle_lt_false _ _ Hle Hlt).
 Qed.
 
@@ -640,34 +689,37 @@ Proof.
   apply in_map_iff. exists x. tauto.
 Qed.
 
-(* the min entry of a box precedes its max entry: by order of the values, or by stability on a tie *)
+(* the min entry of a box precedes its max entry: by order of the values, or by the tie-break of SAPcmp *)
 Lemma T_min_before_max i b : nth_error bs i = Some b -> precedes T (i, false) (i, true).
 Proof.
   intro Hn. rewrite T_def.
   assert (Hle : kle (rnd (bmin K axis b)) (rnd (bmax K axis b))).
   { apply rnd_mono, boxes_wf. eapply nth_error_In; eassumption. }
-  assert (H0 : precedes E0 (emin i b) (emax i b)) by (apply (init_precedes bs 0 i b Hn)).
   assert (Hne : emin i b <> emax i b) by (unfold emin, emax; intro E; discriminate).
   assert (I1 : In (emin i b) S) by (apply S_in, E0_emin; assumption).
   assert (I2 : In (emax i b) S) by (apply S_in, E0_emax; assumption).
   destruct (precedes_total S (emin i b) (emax i b) I1 I2 Hne) as [HP | HP].
   - apply (precedes_map snd) in HP. exact HP.
-  - exfalso. pose proof (precedes_sorted _ _ _ _ S_sorted HP) as Hge. unfold Broadphase.ecmp in Hge. simpl in Hge.
-    set (p := eqv entry ecmp (emin i b)).
-    assert (Pmin : p (emin i b) = true).
-    { unfold p, eqv, Sort.le, Broadphase.ecmp. simpl.
-      assert (kcmp (rnd (bmin K axis b)) (rnd (bmin K axis b)) <= 0).
-      { destruct (Z_le_gt_dec (kcmp (rnd (bmin K axis b)) (rnd (bmin K axis b))) 0) as [L | G]; [exact L|].
-        exfalso. assert (G' : 0 < kcmp (rnd (bmin K axis b)) (rnd (bmin K axis b))) by lia.
-        apply kcmp_anti in G'. lia. }
-      apply andb_true_iff. split; apply Z.leb_le; assumption. }
-    assert (Pmax : p (emax i b) = true).
-    { unfold p, eqv, Sort.le, Broadphase.ecmp. simpl. apply andb_true_iff. split; apply Z.leb_le; assumption. }
-    pose proof (precedes_filter p _ _ _ HP Pmax Pmin) as F1.
-    pose proof (precedes_filter p _ _ _ H0 Pmin Pmax) as F2.
-    unfold p in F1. rewrite S_stable in F1.
-    eapply (precedes_antisym_map snd); [|exact F1 | exact F2].
-    apply NoDup_map_filter. apply init_tags_NoDup.
+  - exfalso. pose proof (precedes_sorted _ _ _ _ S_sorted HP) as Hge. cbv beta in Hge.
+    destruct (ecmp_cases (emax i b) (emin i b)) as [[H E] | [[H E] | [H E]]]; unfold emin, emax in H; simpl in H.
+    + apply kcmp_anti in H. lia.
+    + rewrite E in Hge. unfold emin, emax in Hge. simpl in Hge. lia.
+    + rewrite E in Hge. lia.
+Qed.
+
+(* non-strict overlap: the start of b is swept before the end of a *)
+Lemma T_min_before_other_max a b ba bb : nth_error bs a = Some ba -> nth_error bs b = Some bb ->
+  kle (rnd (bmin K axis bb)) (rnd (bmax K axis ba)) -> precedes T (b, false) (a, true).
+Proof.
+  intros Na Nb Hle.
+  assert (Ia : In (a, true) T) by (apply T_in; eauto).
+  assert (Ib : In (b, false) T) by (apply T_in; eauto).
+  destruct (precedes_total T (b, false) (a, true) Ib Ia) as [HP | HP]; [discriminate | exact HP|].
+  exfalso. pose proof (T_precedes_ecmp _ _ _ _ (E0_emax a ba Na) (E0_emin b bb Nb) HP) as Hge.
+  match type of Hge with (Broadphase.ecmp _ _ ?x ?y <= 0) => destruct (ecmp_cases x y) as [[H E] | [[H E] | [H E]]] end; simpl in H.
+  - apply kcmp_anti in H. lia.
+  - rewrite E in Hge. simpl in Hge. lia.
+  - rewrite E in Hge. lia.
 Qed.
 
 Lemma T_bracketed : bracketed [] T.
@@ -706,10 +758,10 @@ Qed.
 
 Lemma sap_emit d a b ba bb :
   nth_error bs a = Some ba -> nth_error bs b = Some bb ->
-  precedes T (a, false) (b, false) -> klt (rnd (bmin K axis bb)) (rnd (bmax K axis ba)) -> keep d a b = true ->
+  precedes T (a, false) (b, false) -> kle (rnd (bmin K axis bb)) (rnd (bmax K axis ba)) -> keep d a b = true ->
   In (a, b) (sap K kcmp rnd axis bs d).
 Proof.
-  intros Na Nb (l1 & l2 & E & Hb) Hlt Hk. apply sap_in.
+  intros Na Nb (l1 & l2 & E & Hb) Hle Hk. apply sap_in.
   destruct (in_split _ _ Hb) as (m1 & m2 & E2). subst l2.
   exists (l1 ++ (a, false) :: m1), m2. repeat split.
   - rewrite E, <- app_assoc. reflexivity.
@@ -721,8 +773,7 @@ Proof.
         + rewrite E, <- app_assoc. reflexivity.
         + rewrite E3, <- app_assoc. reflexivity.
       - apply in_or_app. right. left. reflexivity. }
-    pose proof (T_precedes_le _ _ _ _ (E0_emax a ba Na) (E0_emin b bb Nb) HP) as Hle.
-    exact (kle_lt_false _ _ Hle Hlt).
+    exact (precedes_antisym T _ _ T_NoDup HP (T_min_before_other_max a b ba bb Na Nb Hle)).
   - exact Hk.
 Qed.
 
@@ -773,8 +824,8 @@ Qed.
 (* ---------- completeness and exactly-once *)
 Theorem sap_complete d a b ba bb :
   nth_error bs a = Some ba -> nth_error bs b = Some bb -> a <> b ->
-  klt (rnd (bmin K axis ba)) (rnd (bmax K axis bb)) ->
-  klt (rnd (bmin K axis bb)) (rnd (bmax K axis ba)) ->
+  kle (rnd (bmin K axis ba)) (rnd (bmax K axis bb)) ->
+  kle (rnd (bmin K axis bb)) (rnd (bmax K axis ba)) ->
   yz_overlap ba bb ->
   In (a, b) (sap K kcmp rnd axis bs d) \/ In (b, a) (sap K kcmp rnd axis bs d).
 Proof.
@@ -801,8 +852,8 @@ Proof. decide equality; apply Nat.eq_dec. Defined.
 
 Theorem sap_exactly_once d a b ba bb :
   nth_error bs a = Some ba -> nth_error bs b = Some bb -> a <> b ->
-  klt (rnd (bmin K axis ba)) (rnd (bmax K axis bb)) ->
-  klt (rnd (bmin K axis bb)) (rnd (bmax K axis ba)) ->
+  kle (rnd (bmin K axis ba)) (rnd (bmax K axis bb)) ->
+  kle (rnd (bmin K axis bb)) (rnd (bmax K axis ba)) ->
   yz_overlap ba bb ->
   (count_occ pair_dec (sap K kcmp rnd axis bs d) (a, b) + count_occ pair_dec (sap K kcmp rnd axis bs d) (b, a) = 1)%nat.
 Proof.
@@ -947,23 +998,11 @@ Proof. intro H. unfold rnd8. pose proof (Z.div_le_mono a b 8 ltac:(lia) H). lia.
 Definition tie_boxes : list (box Z) := [((0, 0, 0), (9, 1, 1)); ((8, 0, 0), (20, 1, 1))].
 Definition zbox0 : box Z := ((0, 0, 0), (0, 0, 0)).
 
-Lemma sap_tie_refuted :
-  exists (rnd : Z -> Z) (bs : list (box Z)),
-    (forall a b, a <= b -> rnd a <= rnd b) /\
-    (forall b ax, In b bs -> In ax [0; 1; 2] -> bmin Z ax b < bmax Z ax b) /\
-    (exists b0 b1, nth_error bs 0 = Some b0 /\ nth_error bs 1 = Some b1 /\
-       rnd (bmax Z 0 b0) = rnd (bmin Z 0 b1) /\
-       forall ax, In ax [0; 1; 2] -> bmin Z ax b0 < bmax Z ax b1 /\ bmin Z ax b1 < bmax Z ax b0) /\
-    sap Z zcmp3 rnd 0 bs zbox0 = [] /\
-    sap Z zcmp3 rnd 0 (rev bs) zbox0 = [(1%nat, 0%nat)].
-Proof.
-  exists rnd8, tie_boxes. split; [exact rnd8_mono|]. split.
-  - intros b ax [E | [E | []]] [A | [A | [A | []]]]; subst; vm_compute; reflexivity.
-  - split.
-    + exists ((0, 0, 0), (9, 1, 1)), ((8, 0, 0), (20, 1, 1)). repeat split; try reflexivity.
-      all: destruct H as [A | [A | [A | []]]]; subst; vm_compute; reflexivity.
-    + split; vm_compute; reflexivity.
-Qed.
+(* the former float-tie witness (rnd8 9 = rnd8 8): reported in both declaration orders *)
+Lemma sap_tie_example :
+  sap Z zcmp3 rnd8 0 tie_boxes zbox0 = [(0%nat, 1%nat)] /\
+  sap Z zcmp3 rnd8 0 (rev tie_boxes) zbox0 = [(1%nat, 0%nat)].
+Proof. split; vm_compute; reflexivity. Qed.
 
 (* ================================================================== mj_broadphase (bodies) *)
 Lemma sigcmp_total : forall a b, 0 < sigcmp a b -> sigcmp b a <= 0.
@@ -1037,8 +1076,8 @@ Theorem broadphase_sap i1 i2 b1 b2 x1 x2 :
   (forall b, In b boxes -> kcmp (bmin K 0 b) (bmax K 0 b) <= 0) ->
   nth_error (collidable bodies) i1 = Some b1 -> nth_error (collidable bodies) i2 = Some b2 -> b1 <> b2 ->
   nth_error boxes i1 = Some x1 -> nth_error boxes i2 = Some x2 ->
-  kcmp (rnd (bmin K 0 x1)) (rnd (bmax K 0 x2)) < 0 ->
-  kcmp (rnd (bmin K 0 x2)) (rnd (bmax K 0 x1)) < 0 ->
+  kcmp (rnd (bmin K 0 x1)) (rnd (bmax K 0 x2)) <= 0 ->
+  kcmp (rnd (bmin K 0 x2)) (rnd (bmax K 0 x1)) <= 0 ->
   yz_overlap K kcmp 0 x1 x2 ->
   filterBodyPair (b_weld (body b1)) (b_pweld (body b1)) (b_asleep (body b1)) (b_dof (body b1))
                  (b_weld (body b2)) (b_pweld (body b2)) (b_asleep (body b2)) (b_dof (body b2)) dsbl = false ->
